@@ -245,3 +245,345 @@ pub fn strs(rng: &mut Rng, be: bool) -> (Vec<u8>, Vec<u8>) {
     o.end_len(tok, d);
     (s.v, o.v)
 }
+
+/// Parameters of a generated line program (returned so drivers/models can use them).
+#[derive(Clone, Debug)]
+pub struct LineParams {
+    pub version: u16,
+    pub d64: bool,
+    pub addr_size: u8,
+    pub min_inst_len: u8,
+    pub max_ops: u8,
+    pub line_base: i8,
+    pub line_range: u8,
+    pub opcode_base: u8,
+}
+
+/// A .debug_line program: header (v2-v5) + instruction stream over the full opcode set.
+pub fn line_program(rng: &mut Rng, be: bool, addr_size: u8) -> Vec<u8> {
+    let mut a = Asm::new(be);
+    let programs = 1 + rng.usize(2);
+    for _ in 0..programs {
+        line_program_into(rng, &mut a, addr_size);
+    }
+    a.v
+}
+
+pub fn line_program_into(rng: &mut Rng, a: &mut Asm, addr_size: u8) -> LineParams {
+    let version = *rng.pick(&[2u16, 3, 4, 4, 5, 5, 5]);
+    let d64 = rng.chance(1, 5);
+    let p = LineParams {
+        version,
+        d64,
+        addr_size,
+        min_inst_len: *rng.pick(&[1u8, 1, 1, 2, 4, 255]),
+        max_ops: if version >= 4 { *rng.pick(&[1u8, 1, 1, 2, 4, 255]) } else { 1 },
+        line_base: *rng.pick(&[-5i8, -3, -1, 0, -128, 127, 1]),
+        line_range: *rng.pick(&[14u8, 12, 1, 4, 255, 10]),
+        opcode_base: *rng.pick(&[13u8, 13, 13, 10, 1, 2, 14, 20, 255]),
+    };
+    let unit = a.begin_len(d64);
+    a.u16(if rng.chance(1, 24) { *rng.pick(&[0u16, 1, 6, 0xffff]) } else { version });
+    if version >= 5 {
+        a.u8(if rng.chance(1, 24) { rng.next() as u8 } else { addr_size });
+        a.u8(if rng.chance(1, 32) { 1 } else { 0 });
+    }
+    // header_length placeholder
+    let hl_at = a.len();
+    a.word(0, d64);
+    let hl_start = a.len();
+    a.u8(if rng.chance(1, 32) { 0 } else { p.min_inst_len });
+    if version >= 4 {
+        a.u8(if rng.chance(1, 32) { 0 } else { p.max_ops });
+    }
+    a.u8(rng.bool() as u8);
+    a.u8(p.line_base as u8);
+    a.u8(if rng.chance(1, 32) { 0 } else { p.line_range });
+    a.u8(if rng.chance(1, 32) { 0 } else { p.opcode_base });
+    // standard_opcode_lengths: the standard ones correct for the first 12, random after
+    const STD: [u8; 12] = [0, 1, 1, 1, 1, 0, 0, 0, 1, 0, 0, 1];
+    for i in 1..p.opcode_base {
+        let l = if (i as usize) <= 12 && !rng.chance(1, 16) { STD[i as usize - 1] } else { rng.below(4) as u8 };
+        a.u8(l);
+    }
+    if version <= 4 {
+        for _ in 0..rng.usize(3) {
+            let mut nm = name(rng);
+            nm.push(b'/');
+            a.cstr(&nm);
+        }
+        a.u8(0);
+        for _ in 0..rng.usize(4) {
+            let mut nm = name(rng);
+            nm.push(b'f');
+            a.cstr(&nm);
+            a.uleb(rng.below(4));
+            a.uleb(rng.interesting());
+            a.uleb(rng.interesting());
+        }
+        if !rng.chance(1, 16) {
+            a.u8(0);
+        }
+    } else {
+        // v5 entry formats
+        for is_file in [false, true] {
+            let mut fmts: Vec<(u64, u64)> = vec![(1, *rng.pick(&[0x08u64, 0x1f, 0x0e, 0x08, 0x25, 0x26, 0x1a]))];
+            if is_file {
+                if rng.bool() {
+                    fmts.push((2, *rng.pick(&[0x0bu64, 0x0f, 0x05])));
+                }
+                if rng.chance(1, 3) {
+                    fmts.push((3, *rng.pick(&[0x0fu64, 0x06, 0x07, 0x09])));
+                }
+                if rng.chance(1, 3) {
+                    fmts.push((4, *rng.pick(&[0x0fu64, 0x0b, 0x05, 0x06, 0x07])));
+                }
+                if rng.chance(1, 3) {
+                    fmts.push((5, *rng.pick(&[0x1eu64, 0x1e, 0x0a, 0x09])));
+                }
+                if rng.chance(1, 4) {
+                    fmts.push((0x2001, *rng.pick(&[0x08u64, 0x1f])));
+                }
+            }
+            if rng.chance(1, 6) {
+                fmts.push((rng.interesting(), *rng.pick(&[0x0fu64, 0x0d, 0x0c, 0x17, 0x0b, 0x01, 0x19, 0x21])));
+            }
+            if rng.chance(1, 24) {
+                fmts.remove(0); // no path: MissingFileEntryFormatPath
+            }
+            if rng.chance(1, 8) {
+                let k = rng.usize(fmts.len().max(1));
+                if !fmts.is_empty() {
+                    fmts.swap(0, k);
+                }
+            }
+            a.u8(fmts.len() as u8);
+            for (ct, form) in &fmts {
+                a.uleb(*ct);
+                a.uleb(*form);
+            }
+            let count = rng.usize(4) as u64;
+            a.uleb(if rng.chance(1, 24) { rng.interesting() } else { count });
+            for _ in 0..count {
+                for (_, form) in &fmts {
+                    emit_form(rng, a, *form, d64);
+                }
+            }
+        }
+    }
+    if rng.chance(1, 12) {
+        a.bytes(&[0, 0, 0][..rng.usize(3)]); // slack before the program
+    }
+    let hl = (a.len() - hl_start) as i64 + lie(rng);
+    a.patch_uint(hl_at, hl as u64, if d64 { 8 } else { 4 });
+    // instruction stream
+    let n = rng.usize(40);
+    let mut open = false;
+    for _ in 0..n {
+        line_instruction(rng, a, &p, &mut open);
+    }
+    if open || rng.bool() {
+        a.u8(0).uleb(1).u8(1); // end_sequence
+    }
+    let d = lie(rng);
+    a.end_len(unit, d);
+    p
+}
+
+fn emit_form(rng: &mut Rng, a: &mut Asm, form: u64, d64: bool) {
+    match form {
+        0x08 => {
+            let nm = name(rng);
+            a.cstr(&nm);
+        }
+        0x1f | 0x0e | 0x17 | 0x1d | 0x1f21 => {
+            a.word(rng.below(64), d64);
+        }
+        0x0b | 0x0c | 0x25 => {
+            a.u8(rng.next() as u8);
+        }
+        0x05 | 0x26 => {
+            a.u16(rng.next() as u16);
+        }
+        0x06 | 0x28 => {
+            a.u32(rng.next() as u32);
+        }
+        0x07 => {
+            a.u64(rng.interesting());
+        }
+        0x0f | 0x1a => {
+            a.uleb(rng.interesting());
+        }
+        0x0d => {
+            a.sleb(rng.interesting() as i64);
+        }
+        0x1e => {
+            let b = rng.bytes(16);
+            a.bytes(&b);
+        }
+        0x0a => {
+            let l = *rng.pick(&[16usize, 16, 0, 3]);
+            a.u8(l as u8);
+            let b = rng.bytes(l);
+            a.bytes(&b);
+        }
+        0x09 => {
+            let l = *rng.pick(&[16usize, 0, 5]);
+            a.uleb(l as u64);
+            let b = rng.bytes(l);
+            a.bytes(&b);
+        }
+        0x01 => {
+            let l = rng.usize(5);
+            a.u16(l as u16);
+            let b = rng.bytes(l);
+            a.bytes(&b);
+        }
+        _ => {}
+    }
+}
+
+fn line_instruction(rng: &mut Rng, a: &mut Asm, p: &LineParams, open: &mut bool) {
+    let asz = p.addr_size as usize;
+    let mask = if asz >= 8 { u64::MAX } else { (1u64 << (8 * asz)) - 1 };
+    match rng.below(24) {
+        0..=7 => {
+            // special opcode
+            let lo = p.opcode_base as u64;
+            let op = if lo >= 255 { 255 } else { rng.range(lo, 255) };
+            a.u8(op as u8);
+            *open = true;
+        }
+        8 => {
+            a.u8(1);
+            *open = true;
+        }
+        9 => {
+            a.u8(2).uleb(if rng.chance(1, 6) { rng.interesting() } else { rng.below(64) });
+        }
+        10 => {
+            let v = if rng.chance(1, 6) { *rng.pick(&[i64::MIN, i64::MAX, -1, i64::MIN + 1]) } else { rng.below(40) as i64 - 20 };
+            a.u8(3).sleb(v);
+        }
+        11 => {
+            a.u8(4).uleb(rng.below(6));
+        }
+        12 => {
+            a.u8(5).uleb(rng.interesting());
+        }
+        13 => {
+            a.u8(*rng.pick(&[6u8, 7, 10, 11]));
+        }
+        14 => {
+            a.u8(8);
+        }
+        15 => {
+            a.u8(9).u16(if rng.chance(1, 4) { 0xffff } else { rng.below(256) as u16 });
+        }
+        16 => {
+            a.u8(12).uleb(rng.interesting());
+        }
+        17 => {
+            // unknown standard opcode (if opcode_base allows) with operands
+            let op = rng.range(13, 30) as u8;
+            a.u8(op);
+            for _ in 0..rng.usize(3) {
+                a.uleb(rng.below(300));
+            }
+        }
+        18 | 19 => {
+            // set_address
+            let addr = match rng.below(6) {
+                0 => 0,
+                1 => mask,
+                2 => mask - 1,
+                3 => rng.interesting() & mask,
+                _ => rng.below(0x10000) & mask,
+            };
+            a.u8(0).uleb(1 + asz as u64).u8(2).uint(addr, asz);
+        }
+        20 => {
+            a.u8(0).uleb(1).u8(1);
+            *open = false;
+        }
+        21 => {
+            // define_file
+            let nm = name(rng);
+            let mut body = Asm::new(a.be);
+            body.u8(3).cstr(&nm).uleb(rng.below(4)).uleb(rng.below(1000)).uleb(rng.interesting());
+            a.u8(0).uleb((body.len() as u64).wrapping_add(lie(rng) as u64)).bytes(&body.v);
+        }
+        22 => {
+            a.u8(0).uleb(1 + 1).u8(4).uleb(rng.below(100));
+        }
+        _ => {
+            // unknown / malformed extended opcode
+            let l = if rng.chance(1, 4) { rng.interesting() } else { rng.below(8) };
+            a.u8(0).uleb(l).u8(rng.next() as u8);
+            let b = rng.bytes((l as usize).min(8).saturating_sub(1));
+            a.bytes(&b);
+        }
+    }
+}
+
+/// .debug_macinfo or .debug_macro content.
+pub fn macros(rng: &mut Rng, be: bool, is_macro: bool) -> Vec<u8> {
+    let mut a = Asm::new(be);
+    let mut d64 = false;
+    if is_macro {
+        a.u16(*rng.pick(&[5u16, 4, 5, 0]));
+        let mut flags = 0u8;
+        d64 = rng.chance(1, 4);
+        if d64 {
+            flags |= 1;
+        }
+        let has_line = rng.bool();
+        if has_line {
+            flags |= 2;
+        }
+        if rng.chance(1, 16) {
+            flags |= 4;
+        }
+        if rng.chance(1, 16) {
+            flags |= 0xf8 & rng.next() as u8;
+        }
+        a.u8(flags);
+        if has_line {
+            a.word(rng.below(256), d64);
+        }
+    }
+    for _ in 0..rng.usize(10) {
+        let t = if is_macro { *rng.pick(&[1u8, 2, 3, 4, 5, 6, 7, 8, 9, 10, 11, 12, 0x80, 0xff]) } else { *rng.pick(&[1u8, 2, 3, 4, 0xff, 5, 9]) };
+        a.u8(t);
+        match t {
+            1 | 2 => {
+                a.uleb(rng.below(1000));
+                let nm = name(rng);
+                if rng.chance(1, 12) { a.bytes(&nm); } else { a.cstr(&nm); }
+            }
+            3 => {
+                a.uleb(rng.below(1000)).uleb(rng.below(10));
+            }
+            4 => {}
+            5 | 6 | 8 | 9 if is_macro => {
+                a.uleb(rng.below(1000)).word(rng.interesting(), d64);
+            }
+            7 | 10 if is_macro => {
+                a.word(rng.interesting(), d64);
+            }
+            11 | 12 if is_macro => {
+                a.uleb(rng.below(1000)).uleb(rng.interesting());
+            }
+            0xff if !is_macro => {
+                a.uleb(rng.interesting());
+                let nm = name(rng);
+                a.cstr(&nm);
+            }
+            _ => {}
+        }
+    }
+    if !rng.chance(1, 4) {
+        a.u8(0);
+    }
+    a.v
+}
